@@ -55,7 +55,7 @@ def _gen_worker(key, in_child=False):
         for o in obls:
             jobs.append(dict(name=o.name, kind=o.kind, cover=o.cover, lineno=o.lineno, note=o.note,
                              smt2=solve.to_smt2(o.hyps, o.goal, o.cover, scope=(5 if o.cover else None)),
-                             scoped=[] if o.cover else [(n, solve.to_smt2(o.hyps, o.goal, False, scope=n)) for n in (3, 5)]))
+                             scoped=[] if o.cover else [(n, solve.to_smt2(solve.relevant_hyps(o), o.goal, False, scope=n)) for n in (3, 5)]))
         info["gen_s"] = round(time.time() - t0, 2)
         return dict(key=key, status="ok", info=info, jobs=jobs)
     except OutOfSubset as e:
